@@ -505,6 +505,9 @@ func (r *rows) Next(dest []driver.Value) error {
 	row := r.rs.rows[r.i]
 	r.i++
 	for i, v := range row {
+		if i >= len(dest) {
+			break // like go-sql-driver, which fills dest and nothing more
+		}
 		c := r.rs.cols[i]
 		switch x := v.(type) {
 		case nil:
